@@ -93,13 +93,13 @@ class SymProvider(BaseProvider):
     def float(self, name, nn=True, finite=False, lo=None, hi=None):
         assert name not in self.decls, name
         if self.ctx.profile == "fp":
-            c = z3.FP(name, core.F64)
-            self.decls[name] = ("float", c)
-            v = SFloat(c, nn or finite)
+            c = z3.BitVec(name, 64)
+            self.decls[name] = ("fbits", c)
+            v = SFloat(None, nn or finite, c)
             if finite:
-                self.ctx.assume(SBool(z3.Not(z3.Or(z3.fpIsNaN(c), z3.fpIsInf(c)))))
+                self.ctx.assume(SBool((c & core.EXPMASK) != core.EXPMASK))
             elif nn:
-                self.ctx.assume(SBool(z3.Not(z3.fpIsNaN(c))))
+                self.ctx.assume(SBool(z3.Not(z3.And((c & core.EXPMASK) == core.EXPMASK, (c & core.MANTMASK) != core.ZERO64))))
         else:
             c = z3.Real(name)
             self.decls[name] = ("real", c)
@@ -145,7 +145,7 @@ class SymProvider(BaseProvider):
         """Uninterpreted deterministic objective F: float^arity -> float, never NaN (reported assumption).
         Signed zeros are canonicalised at the boundary (the objective is assumed not to distinguish -0.0/+0.0)."""
         if name not in self.ufs:
-            srt = core.F64 if self.ctx.profile == "fp" else z3.RealSort()
+            srt = z3.BitVecSort(64) if self.ctx.profile == "fp" else z3.RealSort()
             f = z3.Function(name, *([srt] * arity), srt)
             self.ufs[name] = (f, arity)
             self.uf_calls[name] = []
@@ -161,19 +161,25 @@ class SymProvider(BaseProvider):
                 fv = core.lift_float(v)
                 if isinstance(fv, core._Inf):
                     raise RealisationError("objective called on an infinite coordinate")
-                t = fv.e
                 if prov.ctx.profile == "fp":
-                    t = z3.simplify(z3.If(z3.fpIsZero(t), z3.fpPlusZero(core.F64), t))
+                    t = fv.b
+                    t = z3.simplify(z3.If((t & core.ABSMASK) == core.ZERO64, core.ZERO64, t))
+                else:
+                    t = fv.e
                 terms.append(t)
             r = f(*terms)
             prov.uf_calls[name].append((terms, r))
             if prov.ctx.profile == "fp":
-                prov.ctx.assume(SBool(z3.Not(z3.fpIsNaN(r))))
+                prov.ctx.assume(SBool(z3.Not(z3.And((r & core.EXPMASK) == core.EXPMASK, (r & core.MANTMASK) != core.ZERO64))))
+                return SFloat(None, True, r)
             return SFloat(r, True)
 
         F.calls = self.uf_calls[name]
         F.n_calls = lambda: len(prov.uf_calls[name])
-        F.log = lambda: [(arr.sarr([SFloat(t, True) for t in ts]), SFloat(r, True)) for ts, r in prov.uf_calls[name]]
+        def _mk(t):
+            return SFloat(None, True, t) if prov.ctx.profile == "fp" else SFloat(t, True)
+
+        F.log = lambda: [(arr.sarr([_mk(t) for t in ts]), _mk(r)) for ts, r in prov.uf_calls[name]]
         return F
 
 
@@ -328,7 +334,14 @@ class RandomStub:
         name = P._n("randint")
         shape = _shape_of(size)
         if shape is None:
-            return P.int(name, int(low), int(high) - 1)
+            v = P.int(name, int(low), int(high) - 1)
+            if is_sym(v):
+                # a scalar draw is typically used as a slice bound / index: concretise by forking over its range
+                for k in range(int(low), int(high) - 1):
+                    if bool(v == k):
+                        return k
+                return int(high) - 1
+            return v
         return P.ints(name, shape, int(low), int(high) - 1)
 
     def choice(self, a, size=None, replace=True, p=None):
@@ -438,6 +451,11 @@ class Env:
 
     def __enter__(self):
         P = self.P
+        P.env = self
+        if getattr(P, "env_opts", {}).get("rng") == "real":
+            # concrete-float harnesses (tree steps): real numpy, real (seeded) generators, nothing patched
+            P.np = np
+            return self
         proxy, rnd = make_np_proxy(P)
         P.np = proxy
         for mn in NP_MODULES:
@@ -548,12 +566,12 @@ def model_values(P: SymProvider, model):
         tab = []
         seen = set()
         for terms, r in calls:
-            key = tuple(solve.eval_const(model, "float" if P.ctx.profile == "fp" else "real", t) for t in terms)
+            key = tuple(solve.eval_const(model, "fbits" if P.ctx.profile == "fp" else "real", t) for t in terms)
             key = tuple(k if isinstance(k, str) else format(float_bits(float(k)), "x") for k in key)
             if key in seen:
                 continue
             seen.add(key)
-            rv = solve.eval_const(model, "float" if P.ctx.profile == "fp" else "real", r)
+            rv = solve.eval_const(model, "fbits" if P.ctx.profile == "fp" else "real", r)
             rv = rv if isinstance(rv, str) else format(float_bits(float(rv)), "x")
             tab.append([list(key), rv])
         tables[name] = {"table": tab, "default": format(float_bits(0.0), "x")}
@@ -565,6 +583,7 @@ def run_replay(fn, params, values, tables):
     c = core.Ctx(profile="fp", mode="replay")
     core.set_ctx(c)
     P = ReplayProvider(values, tables)
+    P.env_opts = getattr(fn, "env_opts", {})
     status = "done"
     err = None
     try:
@@ -595,7 +614,7 @@ class CaseResult(dict):
 
 
 def explore(fn, params, profile="fp", budget_s=600.0, max_paths=200000, oblig_timeout_s=60.0, portfolio=False,
-            validate_paths=1, fmod_K=3, case_name="", known=None, stop_on_violation=True, separate=False, fmod_fork=False):
+            validate_paths=1, fmod_K=3, case_name="", known=None, stop_on_violation=True, separate=False, fmod_fork=False, argsort_mode="fork", incremental_discharge=False):
     """Explore every path of harness fn(P, **params); discharge the obligations of every path.
 
     Returns a dict with paths / obligations / discharged / violations (each replayed) / inconclusive / stats."""
@@ -603,6 +622,8 @@ def explore(fn, params, profile="fp", budget_s=600.0, max_paths=200000, oblig_ti
     c = core.Ctx(profile=profile)
     c.fmod_K = fmod_K
     c.fmod_fork = fmod_fork
+    c.argsort_mode = argsort_mode
+    c.incremental_discharge = bool(incremental_discharge)
     core.set_ctx(c)
     c.queue = [[]]
     res = {
@@ -641,6 +662,7 @@ def explore(fn, params, profile="fp", budget_s=600.0, max_paths=200000, oblig_ti
             c.solver.set("timeout", c.decide_timeout_ms)
             c.reset_path(prefix)
             P = SymProvider(c)
+            P.env_opts = getattr(fn, "env_opts", {})
             status = "done"
             try:
                 with Env(P):
@@ -701,7 +723,17 @@ def _discharge(c, P, fn, params, pending, res, violated_names, oblig_timeout_s, 
     while pending:
         neg = z3.Or(*[z3.Not(e) for _, e in pending])
         P._obl_terms = [e for _, e in pending]
-        st, model, info = solve.check(c.pc + [neg], oblig_timeout_s, portfolio, P)
+        st = None
+        if c.incremental_discharge:
+            # comparison-dominated obligations: the path's incremental solver (pc already asserted) answers in ms;
+            # anything it cannot settle quickly goes to a fresh solver / the portfolio below
+            st, model, info = solve.check_incremental(c.solver, neg, min(5.0, oblig_timeout_s), P, c.decide_timeout_ms)
+            if st not in ("sat", "unsat"):
+                res["queries"] += 1
+                res["solver_s"] += info["time"]
+                st = None
+        if st is None:
+            st, model, info = solve.check(c.pc + [neg], oblig_timeout_s, portfolio, P)
         res["queries"] += 1
         res["solver_s"] += info["time"]
         res["solver_wins"][info["solver"]] = res["solver_wins"].get(info["solver"], 0) + 1
